@@ -11,6 +11,7 @@ import (
 	"fmt"
 	"go/token"
 	"strconv"
+	"strings"
 )
 
 type lfn struct {
@@ -439,6 +440,47 @@ func (mw *macroWorld) builtin(name string, args []interface{}) (interface{}, err
 			return numSx(a + b), nil
 		}
 		return numSx(a - b), nil
+	case "map":
+		if err := need(2); err != nil {
+			return nil, err
+		}
+		f, ok := args[0].(*lfn)
+		it, ok2 := seqItems(args[1])
+		if !ok || !ok2 {
+			return nil, fmt.Errorf("map of a builtin or over a non-sequence is not modelled")
+		}
+		out := listSx()
+		for _, x := range it {
+			v, err := mw.applyVals(f, []interface{}{x})
+			if err != nil {
+				return nil, err
+			}
+			vs, ok := v.(*sx)
+			if !ok {
+				return nil, fmt.Errorf("function value in the result of map")
+			}
+			out.items = append(out.items, vs)
+		}
+		return out, nil
+	case "str":
+		text := ""
+		for _, a := range args {
+			as, ok := a.(*sx)
+			if !ok || (as.kind != "sym" && as.kind != "str" && as.kind != "num" && as.kind != "kw") {
+				return nil, fmt.Errorf("str of a compound value is not modelled")
+			}
+			text += as.text
+		}
+		return &sx{kind: "str", text: text}, nil
+	case "keyword":
+		if err := need(1); err != nil {
+			return nil, err
+		}
+		as, ok := args[0].(*sx)
+		if !ok {
+			return nil, fmt.Errorf("keyword of a function value")
+		}
+		return &sx{kind: "kw", text: ":" + strings.TrimPrefix(as.text, ":")}, nil
 	case "list?", "vector?", "symbol?", "sequential?":
 		if err := need(1); err != nil {
 			return nil, err
@@ -625,6 +667,42 @@ func macroTailRule(w *World, r *Report, rule string) {
 		}
 		// a bare symbol as the last step
 		cases = append(cases, tcase{name, listSx(symSx(name), symSx("start"), listSx(symSx("step1")), symSx("laststep")), []string{"laststep"}})
+	}
+	// functions generated by defprotocol: a method of fixed arity is a direct call of the implementation it
+	// looks up (a method declared with & has to go through apply)
+	if dp, ok := mw.macros["defprotocol"]; ok {
+		mw.steps, mw.gens = 0, 0
+		form := []*sx{symSx("Proto"),
+			listSx(symSx("method1"), &sx{kind: "vector", items: []*sx{symSx("this")}}),
+			listSx(symSx("method2"), &sx{kind: "vector", items: []*sx{symSx("this"), symSx("arg")}})}
+		exp, err := mw.apply(dp, form)
+		es, _ := exp.(*sx)
+		switch {
+		case err != nil || es == nil:
+			msg := "the expansion is not a form"
+			if err != nil {
+				msg = err.Error()
+			}
+			r.addRaw(rule, where["defprotocol"], "(defprotocol …) generated methods", where["defprotocol"], "undecided", "the symbolic expander cannot expand this macro: "+msg)
+		default:
+			found := 0
+			es.walk(func(d *sx) {
+				if d.head() != "def" || len(d.items) != 3 || d.items[2].head() != "fn" || len(d.items[2].items) < 3 {
+					return
+				}
+				found++
+				body := d.items[2].items[len(d.items[2].items)-1]
+				status, detail := "discharged", "the generated body is a direct call of the looked-up implementation"
+				switch body.head() {
+				case "apply", "map", "eval", "swap!", "reduce":
+					status, detail = "violated", "the generated body of a fixed-arity method calls the implementation through ("+body.head()+" …): the builtin re-enters the evaluator, so a loop running through protocol methods grows the host stack"
+				}
+				r.addRaw(rule, where["defprotocol"], "method "+d.items[1].text+" generated by defprotocol", where["defprotocol"], status, detail)
+			})
+			if found == 0 {
+				r.addRaw(rule, where["defprotocol"], "(defprotocol …) generated methods", where["defprotocol"], "undecided", "no (def name (fn …)) found in the expansion")
+			}
+		}
 	}
 	n := 0
 	for _, c := range cases {
